@@ -518,6 +518,104 @@ async fn write_buffer_case(out: &mut Out, rng: &mut Rng, corpus: bool) {
     out.case(&text, accepted > 0);
 }
 
+// ---------------------------------------------------------------------------------------------
+// T4: the older worker loops (none is wired into a binary; all are public API of the anchored files)
+// ---------------------------------------------------------------------------------------------
+
+/// `persistence::PersistenceWorker` (Arc<Mutex<StreamingPersistence>>, 50 ms loop), `FlushWorker`
+/// (WriteBuffer, 50 ms loop) and `delta_sink::PersistenceWorker` (sink → WriteBuffer, 10 ms loop) under
+/// the paused clock: threshold flush in the loop, final flush at shutdown
+async fn legacy_workers_case(out: &mut Out, rng: &mut Rng) {
+    use redis_sim::streaming::{delta_sink_channel, DeltaSinkPersistenceWorker, FlushWorker, PersistenceWorker};
+    let rid = 1;
+    let never = Duration::from_secs(3600);
+    let cfg = WriteBufferConfig { flush_interval: never, max_size_bytes: 1 << 30, max_deltas: rng.range(1, 4) as usize, backpressure_threshold_bytes: *rng.pick(&[1usize << 40, 160, 300]), compression_enabled: false };
+    let faults: Vec<(u64, Fault)> = if rng.chance(1, 3) { vec![(rng.below(6), Fault::Fail)] } else { vec![] };
+    let mut t = 10u64;
+    let mut upd = |rng: &mut Rng| {
+        t += 1;
+        lww_upd(&key_of_len(rng, (t % 5) as usize + 1, t), b"w", t, rid, false)
+    };
+    // (a) persistence::PersistenceWorker
+    {
+        let store = FaultStore::new(&[]);
+        store.inner.lock().unwrap().record = false;
+        let pers = StreamingPersistence::new(Arc::new(store.clone()), PREFIX.to_string(), rid, cfg.clone()).await.expect("construct");
+        {
+            let mut g = store.inner.lock().unwrap();
+            g.calls = 0;
+            g.faults = faults.iter().cloned().collect();
+        }
+        let shared = Arc::new(tokio::sync::Mutex::new(pers));
+        let (worker, handle) = PersistenceWorker::new(shared.clone());
+        let task = tokio::spawn(worker.run());
+        out.op(xnew_line(rid, &cfg, 0, 0, &faults), "ok".into());
+        for round in 0..rng.range(1, 3) {
+            for _ in 0..rng.range(1, 4) {
+                let u = upd(rng);
+                let mut p = shared.lock().await;
+                let r = p.push(delta_of(&u, rid));
+                out.op(sd_line("XPUSH", &u), format!("{} pending={} bytes={}", if r.is_ok() { "ok" } else { "err" }, p.pending_count(), p.pending_bytes()));
+            }
+            // one loop period later the worker has looked at the thresholds once
+            tokio::time::sleep(Duration::from_millis(if round == 0 { 10 } else { 50 })).await;
+            let p = shared.lock().await;
+            out.op("XTICK".into(), format!("pending={} calls={} segs={}", p.pending_count(), store.calls(), segs_of(&store)));
+        }
+        handle.shutdown();
+        let _ = task.await;
+        let p = shared.lock().await;
+        out.op("XFLUSHQ".into(), format!("pending={} calls={} segs={}", p.pending_count(), store.calls(), segs_of(&store)));
+        out.count("x:case:legacy:persistence-worker");
+    }
+    // (b) FlushWorker over a WriteBuffer, fed directly; (c) delta_sink::PersistenceWorker, fed through the sink
+    for via_sink in [false, true] {
+        let store = FaultStore::new(&faults);
+        store.inner.lock().unwrap().record = false;
+        let wb = Arc::new(WriteBuffer::new(Arc::new(store.clone()), PREFIX.to_string(), cfg.clone()));
+        out.op(xnew_line(rid, &cfg, 0, 0, &faults), "ok".into());
+        let (sender, receiver) = delta_sink_channel();
+        let (task, stop): (tokio::task::JoinHandle<()>, Box<dyn Fn()>) = if via_sink {
+            let (w, h) = DeltaSinkPersistenceWorker::new(receiver, wb.clone());
+            (tokio::spawn(w.run()), Box::new(move || h.shutdown()))
+        } else {
+            drop(receiver);
+            let (w, h) = FlushWorker::new(wb.clone());
+            (tokio::spawn(w.run()), Box::new(move || h.shutdown()))
+        };
+        // let the first (empty) iteration pass
+        tokio::time::sleep(Duration::from_millis(1)).await;
+        for _ in 0..rng.range(1, 3) {
+            for _ in 0..rng.range(1, 4) {
+                let u = upd(rng);
+                if via_sink {
+                    sender.send(delta_of(&u, rid)).expect("worker alive");
+                } else {
+                    let _ = wb.push(delta_of(&u, rid));
+                }
+                out.op(sd_line("XWPUSHQ", &u), "ok".into());
+            }
+            // exactly one loop period of the worker (10 ms for the sink worker, 50 ms for FlushWorker)
+            tokio::time::sleep(Duration::from_millis(if via_sink { 10 } else { 50 })).await;
+            out.op("XWTICK 0".into(), format!("pending={} bytes={} calls={}", wb.pending_count(), wb.pending_bytes(), store.calls()));
+        }
+        // shutdown: (sink: final drain +) final flush
+        let u = upd(rng);
+        if via_sink {
+            sender.send(delta_of(&u, rid)).expect("worker alive");
+        } else {
+            let _ = wb.push(delta_of(&u, rid));
+        }
+        out.op(sd_line("XWPUSHQ", &u), "ok".into());
+        stop();
+        let _ = task.await;
+        // the final flush is unconditional: elapsed != 0 forces the model's should-branch for a non-empty buffer
+        out.op("XWTICK 1".into(), format!("pending={} bytes={} calls={}", wb.pending_count(), wb.pending_bytes(), store.calls()));
+        out.count(if via_sink { "x:case:legacy:delta-sink-worker" } else { "x:case:legacy:flush-worker" });
+    }
+    out.case(&format!("legacy:{:?}:{:?}:{}", cfg, faults, t), true);
+}
+
 pub async fn run_all(out: &mut Out, rng: &mut Rng, n: u64, paused: bool) {
     let cap = match source_channel_capacity() {
         Some(c) => c,
@@ -543,9 +641,12 @@ pub async fn run_all(out: &mut Out, rng: &mut Rng, n: u64, paused: bool) {
             actor_case(out, &mut Rng::new(0xC12), Some(c), cap).await;
         }
         capacity_case(out, cap).await;
-        for _ in 0..n {
+        for i in 0..n {
             let mut r = rng.fork();
             actor_case(out, &mut r, None, cap).await;
+            if i % 3 == 0 {
+                legacy_workers_case(out, &mut r).await;
+            }
         }
     }
 }
